@@ -96,6 +96,10 @@ func cmdCheck(args []string) int {
 			knownFailing[k.Obligation] = true
 		}
 	}
+	currentGhostNames = map[string]bool{}
+	for g := range cs.Ghost {
+		currentGhostNames[g] = true
+	}
 	fns := p.allFunctions()
 	if *verbose {
 		fmt.Fprintf(os.Stderr, "load %.1fs, functions %.1fs\n", tLoad, time.Since(t0).Seconds()-tLoad)
